@@ -88,7 +88,7 @@ def run_cbrt(nd, scale, p, mode, sign):
 
 def worker(t):
     prog = H.get_program()
-    S.BITS_MODE[:] = ['uf', 128]
+    S.BITS_MODE[:] = ['ladder', 192]        # exact bit-length facts (the pinned code of this property never asks for bits() of a symbolic integer; rewrites might)
     saved = list(E.DEFAULT_OVERRIDES)
     try:
         E.DEFAULT_OVERRIDES[:] = K.DIGIT_CONTRACTS + K.ROUNDING_TERM_CONTRACTS + K.EQ_CONTRACTS + K.CBRT_CONTRACTS
